@@ -56,6 +56,7 @@ fn child(args: &Args) {
     let only = args.get("only").and_then(|s| s.parse::<u64>().ok());
     let mut out = Out::new();
     let mut fresh = Arc::new(Fresh::new());
+    run::quiet_panics(); // programs contain panics that are caught on purpose
     for i in 0..n {
         if let Some(o) = only {
             if i != o { continue; }
